@@ -46,6 +46,16 @@ chk("C11", "texel (real process) + h_game",
     "Held on every generated history (3000 quick / 60000 thorough search cases; 16000 / 800000 console games). Only the positive direction is asserted for searches (draw => cp 0, mate => mate 1); 2nd-occurrence controls are run but not judged because a 0 score is legitimate there.",
     "refchess position identity (legally capturable e.p. only); Contempt 0; depth-limited searches (no on-demand tablebase)",
     "DESIGN.md section 3 C11")
+chk("C12", "h_tb",
+    "exhaustive runtime sweep + invariant check: every placement x side of each material class probed through the real probeDTM (both storage back ends) and checked against the Bellman equations with an independent move generator; fault injection (stop flag / time limit during generation) followed by hash traffic and probes against the verified table; ASan slice",
+    "Per swept class the finite input space (all placements, all symmetry images, all sub-materials) is enumerated completely, and a labelling that satisfies the local mate/stalemate/min/max equations everywhere is the exact DTM labelling - so for those classes the check decides exactness, not a sample of it. Quick sweeps the 8 three-men classes + 2 four-men classes (one chosen by seed); thorough sweeps all 44. Abort points are sampled in time, not enumerated.",
+    "the mini rules engine inside h_tb.cpp; positions with the side not to move in check are outside the domain (never probed by the search)",
+    "DESIGN.md section 3 C12", category="fault_enumeration")
+chk("C13", "texel (real process) + h_tb dumps",
+    "runtime output monitor: UCI scores and played moves of 'go infinite'+stop on <=4-men roots judged against DTM tables verified in the same run",
+    "Held on every root searched (96 quick / 3000 thorough, stratified over classes, half-move clocks, hash sizes, threads, table replacement and generation-abort sequences). Exactness is asserted only inside the 50-move margin; beyond it only what the rules imply.",
+    "oracle tables = h_tb dumps that passed the Bellman sweep in this run; synthetic network",
+    "DESIGN.md section 3 C13")
 
 
 def main():
@@ -80,6 +90,7 @@ def main():
             dict(name="texel", path="/verif/build/<variant>/texel", serves_properties=["C03", "C04", "C05", "C09", "C11", "C13", "C14"], kind_free_text="the real engine program: app/texel + texellib compiled from /repo in place, linked with src/common/netload.cpp (network chosen by $VERIF_NET)"),
             dict(name="refchess-cli", path="/verif/src/common/refchess_cli.cpp", serves_properties=["C03", "C04", "C11", "C13"], kind_free_text="line-protocol front end of the independent rules oracle"),
             dict(name="h_game", path="/verif/src/h_game.cpp", serves_properties=["C11"], kind_free_text="in-process harness: class Game with stub players vs a reference model on refchess"),
+            dict(name="h_tb", path="/verif/src/h_tb.cpp", serves_properties=["C12", "C13", "C04"], kind_free_text="in-process multi-threaded harness: TBGenerator/TranspositionTable + independent mini rules engine; also serves verified DTM dumps to the python oracles"),
             dict(name="h_rules", path="/verif/src/h_rules.cpp", serves_properties=["C01", "C02", "C17"], kind_free_text="in-process harness linking texellib + refchess oracle (rel and asan+ubsan builds)"),
         ],
         checks=checks,
